@@ -34,6 +34,24 @@ def _mjcf():
   return mjcf
 
 
+QDW = {0: 6, 1: 3, 2: 1, 3: 1}
+
+
+def _struct(jtypes, bodies, gtypes, nu):
+  """the derived index fields of an MjModel with this structure (all concrete)"""
+  njnt = len(jtypes)
+  qadr = np.cumsum([0] + [QW[t] for t in jtypes])[:-1]
+  dadr = np.cumsum([0] + [QDW[t] for t in jtypes])[:-1]
+  nq, nv = sum(QW[t] for t in jtypes), sum(QDW[t] for t in jtypes)
+  dof_jnt = np.array([j for j, t in enumerate(jtypes) for _ in range(QDW[t])], dtype=int)
+  nbody = max(bodies) + 1
+  return dict(jnt_qposadr=np.array(qadr, dtype=int), jnt_dofadr=np.array(dadr, dtype=int), nq=nq, nv=nv, njnt=njnt, ngeom=len(gtypes), nu=nu, nbody=nbody,
+              dof_jntid=dof_jnt, dof_bodyid=np.array([bodies[j] for j in dof_jnt], dtype=int), body_parentid=np.array([0] + list(range(0, nbody - 1)), dtype=int),
+              geom_bodyid=np.array([min(nbody - 1, 1 + g) for g in range(len(gtypes))], dtype=int),
+              body_jntnum=np.array([sum(1 for b in bodies if b == k) for k in range(nbody)], dtype=int),
+              body_jntadr=np.array([next((j for j, b in enumerate(bodies) if b == k), -1) for k in range(nbody)], dtype=int))
+
+
 def make_mj(jtypes, bodies, limited, gtypes, con, nu):
   """proxy MjModel: structure concrete, values symbolic"""
   import z3
@@ -44,6 +62,7 @@ def make_mj(jtypes, bodies, limited, gtypes, con, nu):
   jr = np.zeros((njnt, 2))
   jr[:, 0], jr[:, 1] = -1.0, 1.0
   return types.SimpleNamespace(
+      **_struct(jtypes, bodies, gtypes, nu),
       opt=opt, geom_fluid=px.symarr('fluid', (ngeom, 2)), actuator_biastype=px.symarr('biastype', (nu,)),
       actuator_gaintype=px.symarr('gaintype', (nu,)), actuator_trntype=px.symarr('trntype', (nu,)),
       geom_solmix=px.symarr('solmix', (ngeom,)), geom_priority=px.symarr('prio', (ngeom,)),
@@ -198,7 +217,7 @@ def _concrete(jt, bodies, lim, gt, con, nu, model, clean=False):
   opt = types.SimpleNamespace(integrator=val('integrator', (), 0), cone=val('cone', (), 0), wind=arr('wind', (3,), 0), impratio=val('impratio', (), 1))
   jr = np.zeros((njnt, 2))
   jr[:, 0], jr[:, 1] = -1.0, 1.0
-  mj = types.SimpleNamespace(opt=opt, geom_fluid=arr('fluid', (ngeom, 2), 0), actuator_biastype=arr('biastype', (nu,), 0), actuator_gaintype=arr('gaintype', (nu,), 0),
+  mj = types.SimpleNamespace(**_struct(jt, bodies, gt, nu), opt=opt, geom_fluid=arr('fluid', (ngeom, 2), 0), actuator_biastype=arr('biastype', (nu,), 0), actuator_gaintype=arr('gaintype', (nu,), 0),
                              actuator_trntype=arr('trntype', (nu,), 0), geom_solmix=arr('solmix', (ngeom,), 1), geom_priority=arr('prio', (ngeom,), 0),
                              jnt_type=np.array(jt), qpos0=arr('qpos0', (nq,), 0), jnt_bodyid=np.array(bodies), jnt_pos=arr('jpos', (njnt, 3), 0),
                              jnt_range=jr, jnt_limited=np.array(lim), jnt_stiffness=arr('stiff', (njnt,), 0), geom_type=np.array(gt),
